@@ -18,7 +18,7 @@ OBLIGATIONS = [
     ob('C04.polysafe', 'h_c04_polysafe', 'fpa', [(0,), (1,), (2,)], ['polygon test terminates without touching memory outside the list', 'end'], 'list length 0..3 (quick) / 0..4 (thorough), arbitrary doubles incl. NaN/inf',
        cases_thorough=[(0,), (1,), (2,), (3,), (4,)]),
     ob('C04.plume', 'h_c04_plume', 'real', tus=['c04_plume.cc'] + TUS[1:] + ['features/plume', 'features/feature_utilities'] + ['features/plume_models/%s/interface' % k for k in ('temperature', 'composition', 'grains', 'velocity')],
-       cases=[(1,), (2,)], cases_thorough=[(1,), (2,), (3,)], native=True,
+       cases=[(1,), (2,)], cases_thorough=[(1,), (2,), (3,)], native=True, div_as_mul=False,
        expect=['above min depth the plume has no effect', 'ellipse centre is the linear interpolant of the bracketing cross sections (last row below, first row in the head)', 'head: semi-major axis is b*sqrt(1-(1-f)^2)',
                'semi-major axis is the linear interpolant', 'rotation angle is the shorter-arc interpolant modulo 2 pi', 'plume contains the point iff min <= depth <= max and the relative distance is <= 1 (half-ellipsoid in the head)',
                'inside, the temperature model gets the relative distance, the incoming value and the plume\'s depth range', 'outside, nothing changes', 'end'],
